@@ -20,6 +20,7 @@ EdgeRec ==
     \* the whole model state is unchanged (shared-socket routing included): the same agent can take another input
     pure  |-> (view' = view),
     delivered |-> last'.delivered,
+    first |-> last'.first,          \* first frame of a new connection to the shared ICE-TCP listener
     from  |-> Snap(state, rc, sel, nom, pend, phost),
     to    |-> Snap(state', rc', sel', nom', pend', phost') ]
 
